@@ -61,7 +61,17 @@ fn fen_line(input: &str) -> IResult<&str, FenRank> {
         fen_empty_squares,
     )))(input)?;
 
-    Ok((input, FenRank(squares.concat())))
+    let squares = squares.concat();
+
+    // Each rank must describe exactly eight squares
+    if squares.len() != File::N {
+        return Err(nom::Err::Error(nom::error::Error::new(
+            input,
+            nom::error::ErrorKind::Verify,
+        )));
+    }
+
+    Ok((input, FenRank(squares)))
 }
 
 fn fen_position(input: &str) -> IResult<&str, Board> {
@@ -241,7 +251,11 @@ fn fen_parser(input: &str) -> IResult<&str, Game> {
 
 #[inline(always)]
 fn plies_from_fullmove_number(fullmove_number: u32, player: Player) -> u32 {
-    (fullmove_number - 1) * 2 + u32::from(player == Player::Black)
+    // Be lenient with out-of-range move numbers (0, or absurdly large) rather than overflowing,
+    // and leave plenty of room for the game to continue from here
+    let full_moves_played = fullmove_number.saturating_sub(1).min(u32::MAX / 4);
+
+    full_moves_played * 2 + u32::from(player == Player::Black)
 }
 
 pub fn parse(input: &str) -> Result<Game, String> {
